@@ -191,7 +191,7 @@ func TestC15_PinUnpinModel(t *testing.T) {
 			}
 		}
 	}
-	evid.Checks(40)
+	evid.Checks(100)
 	rapid.Check(t, func(t *rapid.T) {
 		c := nlhist.Gen(t, nlhist.GenOptions{MaxFiles: 4, MaxOps: 16, Kinds: kinds, MaxBlocks: 2})
 		for i := range c.Ops {
